@@ -114,7 +114,7 @@ def run_both(plugin, exe, cases, timeout):
         sub = [cases[i] for i in todo]
         lines, starts = flatten(sub)
         impl, crash, err = core.run_impl(exe, lines, timeout=timeout)
-        model = core.run_model(plugin.DRIVER, lines, timeout=getattr(plugin, "MODEL_TIMEOUT", 600))
+        model = core.run_model(plugin.DRIVER, lines, timeout=getattr(plugin, "MODEL_TIMEOUT", 3600))
         if len(model) != len(lines):
             raise RuntimeError("model driver produced %d lines for %d ops" % (len(model), len(lines)))
         n = min(len(impl), len(lines))
@@ -209,7 +209,7 @@ def fails_single(plugin, exe, case, timeout=30):
     """re-run one case on both sides; returns Failure or None"""
     lines, _ = flatten([case])
     impl, crash, err = core.run_impl(exe, lines, timeout=timeout)
-    model = core.run_model(plugin.DRIVER, lines, timeout=getattr(plugin, "MODEL_TIMEOUT", 600))
+    model = core.run_model(plugin.DRIVER, lines, timeout=getattr(plugin, "MODEL_TIMEOUT", 3600))
     if crash is not None:
         return Failure("crash", case, impl, model, crash=crash, stderr=err[-6000:])
     if impl != model:
